@@ -228,3 +228,493 @@ Qed.
 
 Lemma strip_deep a b : strip a = strip b -> deep a = deep b.
 Proof. intros H. rewrite <- (deep_strip a), <- (deep_strip b), H. reflexivity. Qed.
+
+(* ------------------------------------------------------------------------------------------ *)
+(* the codec section                                                                           *)
+(* ------------------------------------------------------------------------------------------ *)
+
+Section Codec.
+
+Variable dec : Z -> bytes -> option bytes.
+Variable enc : Z -> bytes -> option bytes.
+Variable u2s : bytes -> bytes.
+Variable s2u : bytes -> bytes.
+Variable nvar : bytes -> option bytes.
+
+(* the only thing assumed of the codecs: decoding what the encoder produced gives the input back *)
+Hypothesis dec_enc : forall k x y, enc k x = Some y -> dec k y = Some x.
+
+Notation psec := (parse_section dec u2s nvar).
+Notation pfile := (parse_file dec u2s nvar).
+Notation pfv := (parse_fv dec u2s nvar).
+Notation sbody := (section_body dec u2s).
+Notation fbody := (file_body nvar).
+Notation asm' := (asm enc s2u).
+Notation asml := (asm_elems enc s2u).
+Notation secasm := (sec_asm enc s2u).
+
+(* ---------- Assemble: unfolding ---------- *)
+
+Lemma asm_list_eq : forall l st,
+  (fix asm_list (l : list node) (st : ast) {struct l} : outcome (list node * ast) :=
+     match l with
+     | [] => Ok ([], st)
+     | x :: r =>
+       do xs <- asm' x st; let '(x', st1) := xs in
+       do rs <- asm_list r st1; let '(r', st2) := rs in
+       Ok (x' :: r', st2)
+     end) l st = asml l st.
+Proof.
+  reflexivity.
+Qed.
+
+Lemma asm_sec h buf kids st :
+  asm' (NSec h buf kids) st =
+  (do ks <- asml kids st; let '(kids', st1) := ks in secasm h buf kids' st1).
+Proof. cbn [asm]. rewrite asm_list_eq. reflexivity. Qed.
+
+Lemma asm_file h buf kids st :
+  asm' (NFile h buf kids) st =
+  (do ks <- asml kids st; let '(kids', st1) := ks in file_asm h buf kids' st1).
+Proof. cbn [asm]. rewrite asm_list_eq. reflexivity. Qed.
+
+Lemma asm_volume h buf kids st :
+  asm' (NVol h buf kids) st =
+  match set_polarity (fst st) (fv_polarity (v_attrs h)) with
+  | None => Err E_POLARITY
+  | Some pol0 =>
+    do ks <- asml kids (pol0, snd st); let '(kids', st1) := ks in vol_asm h buf kids' st1
+  end.
+Proof. cbn [asm]. destruct (set_polarity _ _); [|reflexivity]. rewrite asm_list_eq. reflexivity. Qed.
+
+(* ---------- NewSection split into header decoding and the type-specific part ---------- *)
+
+Definition sec_head (buf : bytes) : outcome (Z * Z) :=
+  let size3 := rd 0 3 buf in
+  let stype := rd 3 1 buf in
+  if known_section stype then
+    if size3 =? 16777215 then
+      if zlen buf <? 8 then Err E_SHORT else
+      let e := rd 4 4 buf in
+      if e =? 4294967295 then Err E_FREEINFILE else Ok (8, e)
+    else Ok (4, size3)
+  else Ok (4, Z.min size3 (zlen buf)).
+
+Definition sec_tail (rs : Z -> bytes -> Z -> outcome (node * Z))
+    (rf : Z -> bytes -> Z -> bool -> outcome (node * Z))
+    (pol : Z) (sbuf : bytes) (size3 stype ext hlen order : Z) : outcome (node * Z) :=
+    let h0 := sec_default size3 stype ext hlen order in
+    if stype =? 2 then
+      if zlen sbuf <? hlen + 20 then Err E_OVERSIZEHDR else
+      let g := sub hlen 16 sbuf in
+      let doff := rd (hlen + 16) 2 sbuf in
+      let attrs := rd (hlen + 18) 2 sbuf in
+      if zlen sbuf <? doff then Err E_BEYOND else
+      let kind := if negb (Z.land attrs 1 =? 0) then codec_kind g else 0 in
+      do ek <-
+        (if kind =? 0 then Ok ([], 0) else
+           match slice doff (zlen sbuf) sbuf with
+           | None => Panic 101
+           | Some payload =>
+             match dec kind payload with
+             | Some e => Ok (e, kind)
+             | None => Ok ([], 0)
+             end
+           end);
+      let '(encap, kind') := ek in
+      do kp <- sections_loop rs (Z.to_nat (zlen encap) + 1) encap pol 0 0;
+      let '(kids, pol') := kp in
+      Ok (NSec (mkSec size3 stype ext hlen (Some (mkGd g doff attrs kind')) [] 0 [] None order)
+               sbuf kids, pol')
+    else if stype =? 21 then
+      if zlen sbuf <=? hlen then Err E_OVERSIZEHDR else
+      Ok (NSec (mkSec size3 stype ext hlen None (u2s (zskipn hlen sbuf)) 0 [] None order) sbuf [], pol)
+    else if stype =? 20 then
+      if zlen sbuf <=? hlen + 2 then Err E_OVERSIZEHDR else
+      Ok (NSec (mkSec size3 stype ext hlen None [] (rd hlen 2 sbuf) (u2s (zskipn (hlen + 2) sbuf)) None order)
+               sbuf [], pol)
+    else if stype =? 23 then
+      if zlen sbuf <=? hlen then Err E_OVERSIZEHDR else
+      do vp <- rf pol (zskipn hlen sbuf) 0 true;
+      let '(v, pol') := vp in
+      Ok (NSec h0 sbuf [v], pol')
+    else if (stype =? 19) || (stype =? 27) || (stype =? 28) then
+      if zlen sbuf <=? hlen then Err E_OVERSIZEHDR else
+      let body := zskipn hlen sbuf in
+      Ok (NSec (mkSec size3 stype ext hlen None [] 0 []
+                      (match parse_depex (length body + 1) body with Some l => Some l | None => Some [] end)
+                      order) sbuf [], pol)
+    else Ok (NSec h0 sbuf [], pol).
+
+Lemma section_body_eq rs rf pol buf order :
+  sbody rs rf pol buf order =
+  if zlen buf <? 4 then Err E_SHORT else
+  do he <- sec_head buf;
+  let '(hlen, ext) := he in
+  if zlen buf <? ext then Err E_SIZE else
+  sec_tail rs rf pol (sub 0 ext buf) (rd 0 3 buf) (rd 3 1 buf) ext hlen order.
+Proof. reflexivity. Qed.
+
+
+(* parsing a buffer that starts with a self-sized section reads the same header *)
+Lemma sec_head_app sb rest hlen ext :
+  4 <= zlen sb -> sec_head sb = Ok (hlen, ext) -> ext = zlen sb ->
+  (known_section (rd 3 1 sb) = false -> rd 0 3 sb <= zlen sb) ->
+  sec_head (sb ++ rest) = Ok (hlen, ext).
+Proof.
+  intros H4 Hh He Hu. unfold sec_head in *.
+  rewrite (rd_app_l sb rest 0 3) by (simpl; lia). rewrite (rd_app_l sb rest 3 1) by (simpl; lia).
+  destruct (known_section (rd 3 1 sb)).
+  - destruct (rd 0 3 sb =? 16777215); [|assumption].
+    destruct (zlen sb <? 8) eqn:E8; [discriminate|].
+    rewrite zlen_app. pose proof (zlen_nonneg rest).
+    replace (zlen sb + zlen rest <? 8) with false by lia.
+    rewrite (rd_app_l sb rest 4 4) by (simpl; lia). assumption.
+  - specialize (Hu eq_refl). inversion Hh; subst. f_equal. f_equal.
+    rewrite zlen_app. pose proof (zlen_nonneg rest). lia.
+Qed.
+
+Definition bad_rs : Z -> bytes -> Z -> outcome (node * Z) := fun _ _ _ => Fuel.
+Definition bad_rf : Z -> bytes -> Z -> bool -> outcome (node * Z) := fun _ _ _ _ => Fuel.
+
+(* a section that parses to a leaf without any recursive call parses to the same leaf whatever the
+   recursive parsers and the order index are *)
+Lemma sec_tail_leaf rs rf pol sbuf size3 stype ext hlen o h b pol' :
+  sec_tail bad_rs bad_rf pol sbuf size3 stype ext hlen o = Ok (NSec h b [], pol') ->
+  b = sbuf /\ pol' = pol /\
+  forall i, sec_tail rs rf pol sbuf size3 stype ext hlen i = Ok (NSec (set_order h i) sbuf [], pol).
+Proof.
+  unfold sec_tail. destruct (stype =? 2).
+  { destruct (zlen sbuf <? hlen + 20); [discriminate|].
+    destruct (zlen sbuf <? rd (hlen + 16) 2 sbuf); [discriminate|].
+    match goal with |- context [bind ?e _] => destruct e as [[encap kind']| | |] end; cbn [bind]; try discriminate.
+    rewrite !Nat.add_1_r. cbn [sections_loop].
+    destruct (0 <? zlen encap); [cbn; discriminate|]. cbn [bind].
+    intros H; inversion H; subst. repeat split. }
+  destruct (stype =? 21).
+  { destruct (zlen sbuf <=? hlen); [discriminate|]. intros H; inversion H; subst. repeat split. }
+  destruct (stype =? 20).
+  { destruct (zlen sbuf <=? hlen + 2); [discriminate|]. intros H; inversion H; subst. repeat split. }
+  destruct (stype =? 23).
+  { destruct (zlen sbuf <=? hlen); [discriminate|]. cbn. discriminate. }
+  destruct ((stype =? 19) || (stype =? 27) || (stype =? 28)).
+  { destruct (zlen sbuf <=? hlen); [discriminate|]. intros H; inversion H; subst. repeat split. }
+  intros H; inversion H; subst. repeat split.
+Qed.
+
+(* leaf sections: [leaf_ok] says that the section's own bytes parse (without recursion) to this very
+   node; it is what "obtained by parsing" gives for a leaf.  The extra clause concerns section types
+   the parser does not know: their size is clamped to the available data, so the size field must
+   not exceed the node. *)
+Definition leaf_ok (pol : Z) (h : sechdr) (buf : bytes) : Prop :=
+  sbody bad_rs bad_rf pol buf (s_order h) = Ok (NSec h buf [], pol) /\
+  (known_section (s_type h) = false -> s_size3 h <= zlen buf).
+
+Lemma sec_tail_type rs rf pol sbuf size3 stype ext hlen o h b kids pol' :
+  sec_tail rs rf pol sbuf size3 stype ext hlen o = Ok (NSec h b kids, pol') ->
+  s_type h = stype /\ s_size3 h = size3 /\ s_ext h = ext /\ s_hlen h = hlen /\ b = sbuf.
+Proof.
+  unfold sec_tail.
+  repeat match goal with
+  | |- context [if ?c then _ else _] => destruct c
+  | |- Err _ = Ok _ -> _ => discriminate
+  | |- bind ?e _ = Ok _ -> _ => destruct e as [[? ?]| | |]; cbn [bind]; try discriminate
+  end; intros H; inversion H; subst; repeat split.
+Qed.
+
+Lemma leaf_reparse pol h buf : leaf_ok pol h buf ->
+  forall rs rf rest i, sbody rs rf pol (buf ++ rest) i = Ok (NSec (set_order h i) buf [], pol).
+Proof.
+  intros [Hp Hu] rs rf rest i. rewrite section_body_eq in Hp |- *.
+  destruct (zlen buf <? 4) eqn:E4; [discriminate|].
+  destruct (sec_head buf) as [[hlen ext]| | |] eqn:Hh; cbn [bind] in Hp; try discriminate.
+  destruct (zlen buf <? ext) eqn:Ee; [discriminate|].
+  pose proof (sec_tail_type _ _ _ _ _ _ _ _ _ _ _ _ _ Hp) as (Ht & Hs3 & Hext & Hhl & Hb).
+  assert (Hx : ext = zlen buf) by (apply sub0_whole; [lia|lia|symmetry; exact Hb]).
+  assert (Hh' : sec_head (buf ++ rest) = Ok (hlen, ext)).
+  { apply sec_head_app; try assumption; [lia|]. rewrite <- Ht, <- Hs3. exact Hu. }
+  rewrite zlen_app. pose proof (zlen_nonneg rest).
+  replace (zlen buf + zlen rest <? 4) with false by lia.
+  rewrite Hh'. cbn [bind].
+  replace (zlen buf + zlen rest <? ext) with false by lia.
+  rewrite (rd_app_l buf rest 0 3) by (simpl; lia). rewrite (rd_app_l buf rest 3 1) by (simpl; lia).
+  replace (sub 0 ext (buf ++ rest)) with buf.
+  2:{ rewrite Hx. symmetry. apply sub_app_here. reflexivity. }
+  rewrite <- Hb in Hp.
+  destruct (sec_tail_leaf rs rf _ _ _ _ _ _ _ _ _ _ Hp) as (_ & _ & Hall).
+  apply Hall.
+Qed.
+
+
+(* ---------- GenSecHeader ---------- *)
+
+Definition tshdr (g : option gdhdr) : bytes :=
+  match g with
+  | Some g => gd_guid g ++ le_enc 2 (gd_dataoff g) ++ le_enc 2 (gd_attrs g)
+  | None => []
+  end.
+
+Definition tslen (g : option gdhdr) : Z := match g with Some _ => 20 | None => 0 end.
+
+Definition regd (hl : Z) (g : option gdhdr) : option gdhdr :=
+  match g with
+  | Some g => Some (mkGd (gd_guid g) hl (gd_attrs g) (gd_kind g))
+  | None => None
+  end.
+
+(* what GenSecHeader produces when the section stays below 4 GiB (no uint32 wrap) *)
+Lemma gen_shape h body : zlen body < 4294967000 ->
+  exists chdr hl size3,
+    (hl = 4 \/ hl = 8) /\ zlen chdr = hl /\
+    let ext := hl + tslen (s_gd h) + zlen body in
+    gen_sec_header h body =
+      (mkSec size3 (s_type h) ext hl (regd (hl + tslen (s_gd h)) (s_gd h)) (s_name h) (s_build h)
+             (s_version h) (s_depex h) (s_order h),
+       chdr ++ tshdr (regd (hl + tslen (s_gd h)) (s_gd h)) ++ body) /\
+    (forall X, rd 0 3 (chdr ++ X) = size3 /\ rd 3 1 (chdr ++ X) = s_type h) /\
+    (forall X, known_section (s_type h) = true -> sec_head (chdr ++ X) = Ok (hl, ext)) /\
+    (16777215 <? ext = (hl =? 8)).
+Proof.
+  intros Hb. pose proof (zlen_nonneg body) as Hn.
+  unfold gen_sec_header.
+  set (hl0 := 4 + match s_gd h with Some _ => 20 | None => 0 end).
+  assert (Hhl0 : hl0 = 4 + tslen (s_gd h)) by (unfold hl0, tslen; destruct (s_gd h); reflexivity).
+  assert (Hts : tslen (s_gd h) = 0 \/ tslen (s_gd h) = 20) by (unfold tslen; destruct (s_gd h); auto).
+  assert (He0 : (zlen body + hl0) mod U32 = zlen body + hl0).
+  { apply Z.mod_small. unfold U32. change (2 ^ 32) with 4294967296. lia. }
+  rewrite He0.
+  destruct (16777215 <=? zlen body + hl0) eqn:Ebig.
+  - (* extended header *)
+    assert (He1 : (zlen body + hl0 + 4) mod U32 = zlen body + hl0 + 4).
+    { apply Z.mod_small. unfold U32. change (2 ^ 32) with 4294967296. lia. }
+    rewrite He1.
+    replace (16777215 <=? zlen body + hl0 + 4) with true by lia.
+    exists (le_enc 3 16777215 ++ [s_type h] ++ le_enc 4 (zlen body + hl0 + 4)), 8, 16777215.
+    split; [auto|]. split; [reflexivity|].
+    assert (Hw : write3 (zlen body + hl0 + 4) = 16777215) by (unfold write3; replace (16777215 <=? zlen body + hl0 + 4) with true by lia; reflexivity).
+    rewrite Hw.
+    replace (8 + tslen (s_gd h) + zlen body) with (zlen body + hl0 + 4) by lia.
+    replace ((hl0 + 4) mod 65536) with (8 + tslen (s_gd h)) by (rewrite Z.mod_small; lia).
+    split; [|split; [|split]].
+    + destruct (s_gd h) as [g|]; unfold regd, tshdr, tslen; cbn [gd_guid gd_dataoff gd_attrs];
+        rewrite <- ?app_assoc, ?app_nil_r; reflexivity.
+    + intros X. split.
+      * rewrite <- !app_assoc. rewrite rd_app_here by reflexivity. reflexivity.
+      * rewrite <- !app_assoc. exact (rd1_at (le_enc 3 16777215) (s_type h) _).
+    + intros X Hk. unfold sec_head.
+      assert (R0 : rd 0 3 ((le_enc 3 16777215 ++ [s_type h] ++ le_enc 4 (zlen body + hl0 + 4)) ++ X) = 16777215).
+      { rewrite <- !app_assoc. rewrite rd_app_here by reflexivity. reflexivity. }
+      assert (R3 : rd 3 1 ((le_enc 3 16777215 ++ [s_type h] ++ le_enc 4 (zlen body + hl0 + 4)) ++ X) = s_type h).
+      { rewrite <- !app_assoc. exact (rd1_at (le_enc 3 16777215) (s_type h) _). }
+      rewrite R0, R3, Hk. change (16777215 =? 16777215) with true. cbv iota.
+      rewrite !zlen_app, le4. pose proof (zlen_nonneg X).
+      change (zlen (le_enc 3 16777215)) with 3. change (zlen [s_type h]) with 1.
+      replace (3 + (1 + 4) + zlen X <? 8) with false by lia.
+      assert (R4 : rd 4 4 ((le_enc 3 16777215 ++ [s_type h] ++ le_enc 4 (zlen body + hl0 + 4)) ++ X) = zlen body + hl0 + 4).
+      { replace ((le_enc 3 16777215 ++ [s_type h] ++ le_enc 4 (zlen body + hl0 + 4)) ++ X)
+          with ((le_enc 3 16777215 ++ [s_type h]) ++ le_enc 4 (zlen body + hl0 + 4) ++ X)
+          by (rewrite <- !app_assoc; reflexivity).
+        change 4 with (zlen (le_enc 3 16777215 ++ [s_type h])) at 1.
+        rewrite rd_at by (apply le4). apply le_dec_enc. change (256 ^ Z.of_nat 4) with 4294967296. lia. }
+      rewrite R4. replace (zlen body + hl0 + 4 =? 4294967295) with false by lia. reflexivity.
+    + lia.
+  - (* short header *)
+    replace (16777215 <=? zlen body + hl0) with false by lia.
+    exists (le_enc 3 (zlen body + hl0) ++ [s_type h]), 4, (zlen body + hl0).
+    split; [auto|]. split; [rewrite zlen_app; reflexivity|].
+    assert (Hw : write3 (zlen body + hl0) = zlen body + hl0) by (unfold write3; replace (16777215 <=? zlen body + hl0) with false by lia; reflexivity).
+    rewrite Hw.
+    replace (4 + tslen (s_gd h) + zlen body) with (zlen body + hl0) by lia.
+    replace (hl0 mod 65536) with (4 + tslen (s_gd h)) by (rewrite Z.mod_small; lia).
+    assert (R0 : forall X, rd 0 3 ((le_enc 3 (zlen body + hl0) ++ [s_type h]) ++ X) = zlen body + hl0).
+    { intros X. rewrite <- !app_assoc. rewrite rd_app_here by reflexivity.
+      apply le_dec_enc. change (256 ^ Z.of_nat 3) with 16777216. lia. }
+    assert (R3 : forall X, rd 3 1 ((le_enc 3 (zlen body + hl0) ++ [s_type h]) ++ X) = s_type h).
+    { intros X. rewrite <- !app_assoc. exact (rd1_at (le_enc 3 (zlen body + hl0)) (s_type h) _). }
+    split; [|split; [|split]].
+    + destruct (s_gd h) as [g|]; unfold regd, tshdr, tslen; cbn [gd_guid gd_dataoff gd_attrs];
+        rewrite <- ?app_assoc, ?app_nil_r; reflexivity.
+    + intros X. split; [apply R0|apply R3].
+    + intros X Hk. unfold sec_head. rewrite R0, R3, Hk.
+      replace (zlen body + hl0 =? 16777215) with false by lia. reflexivity.
+    + lia.
+Qed.
+
+
+(* ---------- the encapsulated form: join4 and the section loop ---------- *)
+
+Definition pad4 (o : Z) : bytes := zrepeat 0 (align4 o - o).
+
+Fixpoint tailj (o : Z) (l : list bytes) : bytes :=
+  match l with
+  | [] => []
+  | b :: r => pad4 o ++ b ++ tailj (align4 o + zlen b) r
+  end.
+
+Lemma zlen_pad4 o : 0 <= o -> zlen (pad4 o) = align4 o - o.
+Proof. intros. unfold pad4. apply zlen_zrepeat. pose proof (align4_ge o). lia. Qed.
+
+Lemma join4_tailj : forall l acc, join4 acc l = acc ++ tailj (zlen acc) l.
+Proof.
+  induction l as [|b r IH]; intros acc; cbn [join4 tailj]; [rewrite app_nil_r; reflexivity|].
+  rewrite IH. rewrite <- !app_assoc. fold (pad4 (zlen acc)).
+  rewrite !zlen_app, zlen_pad4 by apply zlen_nonneg.
+  replace (zlen acc + (align4 (zlen acc) - zlen acc + zlen b)) with (align4 (zlen acc) + zlen b) by lia.
+  reflexivity.
+Qed.
+
+Lemma pad4_shift a o : a mod 4 = 0 -> pad4 (a + o) = pad4 o.
+Proof. intros. unfold pad4. rewrite align4_add by assumption. f_equal. lia. Qed.
+
+Lemma tailj_shift a : a mod 4 = 0 -> forall l o, tailj (a + o) l = tailj o l.
+Proof.
+  intros Ha. induction l as [|b r IH]; intros o; cbn [tailj]; [reflexivity|].
+  rewrite pad4_shift by assumption. rewrite align4_add by assumption.
+  rewrite <- Z.add_assoc. rewrite IH. reflexivity.
+Qed.
+
+(* what a recursive section parser must do on the children for the loop lemma *)
+Definition reparses_sec (rs : Z -> bytes -> Z -> outcome (node * Z)) (pol : Z) (k : node) : Prop :=
+  0 < zlen (node_buf k) /\
+  forall rest i, exists k2, rs pol (node_buf k ++ rest) i = Ok (k2, pol) /\
+                            strip k2 = strip k /\ sec_ext k2 = zlen (node_buf k).
+
+Lemma loop_tailj rs pol : forall kids, Forall (reparses_sec rs pol) kids ->
+  forall pre o n i, zlen pre = o -> (length kids < n)%nat ->
+  exists kids2,
+    sections_loop rs n (pre ++ tailj o (map node_buf kids)) pol (align4 o) i = Ok (kids2, pol) /\
+    map strip kids2 = map strip kids.
+Proof.
+  induction 1 as [|k r [Hpos Hk] Hr IH]; intros pre o n i Ho Hn.
+  - destruct n as [|n]; [simpl in Hn; lia|]. cbn [map tailj sections_loop]. rewrite app_nil_r.
+    pose proof (zlen_nonneg pre). pose proof (align4_ge o ltac:(lia)).
+    replace (align4 o <? zlen pre) with false by lia. exists []. split; reflexivity.
+  - destruct n as [|n]; [simpl in Hn; lia|]. cbn [map tailj sections_loop].
+    pose proof (zlen_nonneg pre) as Hp. pose proof (align4_ge o ltac:(lia)) as Ha.
+    set (kb := node_buf k) in *. set (tl := tailj (align4 o + zlen kb) (map node_buf r)).
+    assert (Hoff : align4 o = zlen (pre ++ pad4 o)) by (rewrite zlen_app, zlen_pad4 by lia; lia).
+    replace (align4 o <? zlen (pre ++ pad4 o ++ kb ++ tl)) with true
+      by (rewrite !zlen_app, zlen_pad4 by lia; pose proof (zlen_nonneg tl); lia).
+    replace (zskipn (align4 o) (pre ++ pad4 o ++ kb ++ tl)) with (kb ++ tl).
+    2:{ rewrite Hoff. rewrite app_assoc. rewrite zskipn_app_exact. reflexivity. }
+    destruct (Hk tl i) as (k2 & Hrs & Hs & He). rewrite Hrs. cbn [bind].
+    rewrite He. replace (zlen kb =? 0) with false by lia.
+    destruct (IH (pre ++ pad4 o ++ kb) (align4 o + zlen kb) n (i + 1)) as (r2 & Hl & Hm).
+    { rewrite !zlen_app, zlen_pad4 by lia. lia. }
+    { simpl in Hn. lia. }
+    replace (pre ++ pad4 o ++ kb ++ tl) with ((pre ++ pad4 o ++ kb) ++ tl) by (rewrite <- !app_assoc; reflexivity).
+    unfold tl. rewrite Hl. cbn [bind]. exists (k2 :: r2). split; [reflexivity|].
+    cbn [map]. rewrite Hs, Hm. reflexivity.
+Qed.
+
+Lemma align4_0 : align4 0 = 0. Proof. reflexivity. Qed.
+
+(* the loop over a decompressed payload *)
+Lemma loop_join4 rs pol kids n i : Forall (reparses_sec rs pol) kids -> (length kids < n)%nat ->
+  exists kids2,
+    sections_loop rs n (join4 [] (map node_buf kids)) pol 0 i = Ok (kids2, pol) /\
+    map strip kids2 = map strip kids.
+Proof.
+  intros H Hn. rewrite join4_tailj.
+  exact (loop_tailj rs pol kids H [] 0 n i eq_refl Hn).
+Qed.
+
+(* the loop over the body of a file whose header is [hdr] (24 or 32 bytes) *)
+Lemma loop_file rs pol kids hdr n i : Forall (reparses_sec rs pol) kids -> (length kids < n)%nat ->
+  (zlen hdr) mod 4 = 0 ->
+  exists kids2,
+    sections_loop rs n (hdr ++ join4 [] (map node_buf kids)) pol (zlen hdr) i = Ok (kids2, pol) /\
+    map strip kids2 = map strip kids.
+Proof.
+  intros H Hn Hm. rewrite join4_tailj. cbn [app]. change (zlen (@nil Z)) with 0.
+  pose proof (loop_tailj rs pol kids H hdr (zlen hdr) n i eq_refl Hn) as G.
+  rewrite (align4_fix (zlen hdr) Hm) in G.
+  assert (E : tailj (zlen hdr) (map node_buf kids) = tailj 0 (map node_buf kids)).
+  { rewrite <- (tailj_shift (zlen hdr) Hm (map node_buf kids) 0). f_equal. lia. }
+  rewrite E in G. exact G.
+Qed.
+
+Lemma length_le_zlen_join (kids : list node) :
+  Forall (fun k => 0 < zlen (node_buf k)) kids ->
+  Z.of_nat (length kids) <= zlen (join4 [] (map node_buf kids)).
+Proof.
+  intros H. rewrite join4_tailj. cbn [app]. generalize (zlen (@nil Z)). 
+  induction H as [|k r Hk Hr IH]; intros o; cbn [map tailj length]; [unfold zlen; simpl; lia|].
+  rewrite !zlen_app. specialize (IH (align4 o + zlen (node_buf k))).
+  pose proof (zlen_nonneg (pad4 o)). lia.
+Qed.
+
+
+(* ---------- re-parsing a compressed GUID-defined section written by Assemble ---------- *)
+
+Lemma sbody_comp rs rf pol h h' g c buf kids rest i :
+  s_type h = 2 -> s_gd h = Some g -> zlen (gd_guid g) = 16 -> 0 <= gd_attrs g < 65536 ->
+  Z.land (gd_attrs g) 1 <> 0 -> codec_kind (gd_guid g) <> 0 ->
+  enc (codec_kind (gd_guid g)) (join4 [] (map node_buf kids)) = Some c ->
+  zlen c < 4294967000 ->
+  gen_sec_header h c = (h', buf) ->
+  Forall (reparses_sec rs pol) kids ->
+  exists kids2,
+    sbody rs rf pol (buf ++ rest) i =
+      Ok (NSec (mkSec (s_size3 h') 2 (s_ext h') (s_hlen h')
+                      (Some (mkGd (gd_guid g) (s_hlen h' + 20) (gd_attrs g) (codec_kind (gd_guid g))))
+                      [] 0 [] None i) buf kids2, pol) /\
+    map strip kids2 = map strip kids /\ s_ext h' = zlen buf /\ 4 <= zlen buf /\
+    s_gd h' = Some (mkGd (gd_guid g) (s_hlen h' + 20) (gd_attrs g) (gd_kind g)) /\
+    s_type h' = 2 /\ s_name h' = s_name h /\ s_build h' = s_build h /\ s_version h' = s_version h /\
+    s_depex h' = s_depex h /\ s_order h' = s_order h.
+Proof.
+  intros Ht Hg Hg16 Hattr Hbit Hkind Henc Hc Hgen Hkids.
+  destruct (gen_shape h c Hc) as (chdr & hl & size3 & Hhl & Hlen & Hgen' & Hrd & Hhead & _).
+  rewrite Hgen in Hgen'. rewrite Hg in Hgen', Hhead. cbn [tslen regd tshdr gd_guid gd_dataoff gd_attrs] in Hgen', Hhead.
+  pose proof (f_equal fst Hgen') as Hh'. pose proof (f_equal snd Hgen') as Hbuf.
+  cbn [fst snd] in Hh', Hbuf. clear Hgen' Hgen. subst h' buf.
+  cbn [s_size3 s_ext s_hlen s_gd s_type s_name s_build s_version s_depex s_order].
+  set (guid := gd_guid g) in *. set (attrs := gd_attrs g) in *.
+  set (tsh := guid ++ le_enc 2 (hl + 20) ++ le_enc 2 attrs).
+  pose proof (zlen_nonneg c) as Hcn. pose proof (zlen_nonneg rest) as Hrn.
+  assert (Htsh : zlen tsh = 20) by (unfold tsh; rewrite !zlen_app, !le2; lia).
+  assert (Hzb : zlen (chdr ++ tsh ++ c) = hl + 20 + zlen c) by (rewrite !zlen_app; lia).
+  set (B := chdr ++ tsh ++ c) in *.
+  assert (Hdata : dec (codec_kind guid) c = Some (join4 [] (map node_buf kids))) by (apply dec_enc; exact Henc).
+  assert (Hn : (length kids < Z.to_nat (zlen (join4 [] (map node_buf kids))) + 1)%nat).
+  { pose proof (length_le_zlen_join kids) as L.
+    assert (Forall (fun k => 0 < zlen (node_buf k)) kids) as F.
+    { clear - Hkids. induction Hkids as [|k r [Hp _] _ IH]; constructor; assumption. }
+    specialize (L F). lia. }
+  destruct (loop_join4 rs pol kids _ 0 Hkids Hn) as (kids2 & Hloop & Hstrip).
+  exists kids2. split; [|repeat split; try assumption; try lia].
+  rewrite section_body_eq.
+  replace (zlen (B ++ rest) <? 4) with false by (rewrite zlen_app; lia).
+  assert (HB : B ++ rest = chdr ++ (tsh ++ c) ++ rest) by (unfold B; rewrite <- !app_assoc; reflexivity).
+  rewrite HB at 1. rewrite (Hhead _ ltac:(rewrite Ht; reflexivity)). cbn [bind].
+  cbn [tslen]. replace (zlen (B ++ rest) <? hl + 20 + zlen c) with false by (rewrite zlen_app; lia).
+  replace (sub 0 (hl + 20 + zlen c) (B ++ rest)) with B by (symmetry; apply sub_app_here; exact Hzb).
+  rewrite HB. destruct (Hrd ((tsh ++ c) ++ rest)) as [R0 R3]. rewrite R0, R3. rewrite Ht.
+  unfold sec_tail. change (2 =? 2) with true. cbv iota.
+  replace (zlen B <? hl + 20) with false by lia.
+  assert (Sg : sub hl 16 B = guid).
+  { unfold B, tsh. rewrite <- Hlen. rewrite <- !app_assoc. apply sub_at. exact Hg16. }
+  assert (Rd : rd (hl + 16) 2 B = hl + 20).
+  { unfold B, tsh. replace (chdr ++ (guid ++ le_enc 2 (hl + 20) ++ le_enc 2 attrs) ++ c)
+      with ((chdr ++ guid) ++ le_enc 2 (hl + 20) ++ (le_enc 2 attrs ++ c)) by (rewrite <- !app_assoc; reflexivity).
+    replace (hl + 16) with (zlen (chdr ++ guid)) by (rewrite zlen_app; lia).
+    rewrite rd_at by apply le2. apply le_dec_enc. change (256 ^ Z.of_nat 2) with 65536. lia. }
+  assert (Ra : rd (hl + 18) 2 B = attrs).
+  { unfold B, tsh. replace (chdr ++ (guid ++ le_enc 2 (hl + 20) ++ le_enc 2 attrs) ++ c)
+      with ((chdr ++ guid ++ le_enc 2 (hl + 20)) ++ le_enc 2 attrs ++ c) by (rewrite <- !app_assoc; reflexivity).
+    replace (hl + 18) with (zlen (chdr ++ guid ++ le_enc 2 (hl + 20))) by (rewrite !zlen_app, le2; lia).
+    rewrite rd_at by apply le2. apply le_dec_enc. change (256 ^ Z.of_nat 2) with 65536. exact Hattr. }
+  rewrite Sg, Rd, Ra.
+  replace (zlen B <? hl + 20) with false by lia.
+  replace (Z.land attrs 1 =? 0) with false by lia. cbn [negb].
+  replace (codec_kind guid =? 0) with false by lia.
+  rewrite slice_ok by lia.
+  replace (sub (hl + 20) (zlen B - (hl + 20)) B) with c.
+  2:{ unfold B. replace (chdr ++ tsh ++ c) with ((chdr ++ tsh) ++ c ++ []) by (rewrite app_nil_r, <- app_assoc; reflexivity).
+      replace (hl + 20) with (zlen (chdr ++ tsh)) by (rewrite zlen_app; lia).
+      symmetry. apply sub_at. rewrite !zlen_app. change (zlen (@nil Z)) with 0. lia. }
+  rewrite Hdata. cbn [bind]. rewrite Hloop. cbn [bind]. reflexivity.
+Qed.
+
+End Codec.
